@@ -14,7 +14,7 @@
 //! The data source is a small array-backed `PayloadSource` with 0-2 IPv4
 //! origins (fixed-layout PDUs only; see DESIGN §3 C07 for why the
 //! variable-length PDUs are out of reach).
-//! @jobs 8 @mem_gb 8 @quick_timeout 900 @thorough_timeout 3600
+//! @jobs 4 @mem_gb 8 @quick_timeout 600 @thorough_timeout 3600 @thorough_mem_gb 24 @thorough_jobs 2
 use crate::util::*;
 use rpki::resources::addr::{MaxLenPrefix, Prefix};
 use rpki::resources::asn::Asn;
@@ -311,74 +311,71 @@ fn recv_body_x(pdu_type: Option<u8>, fragment: bool, max_pending: u8,
     std::mem::forget(conn);
 }
 
-/// @tier exp2
+/// @tier thorough
 /// @fn rpki::rtr::server::Connection::recv rpki::rtr::server::Connection::check_version
 ///   rpki::rtr::server::Connection::check_length rpki::rtr::pdu::Header::read
 ///   rpki::rtr::pdu::SerialQueryPayload::read rpki::rtr::pdu::Error::new
 /// @bounds one 12-byte client stream whose PDU type is Serial Query, every
 ///   other byte arbitrary (version, session, length field, serial); arbitrary
-///   connection version state (not negotiated / any u8); every fragmentation
-///   whose pieces are one byte or run to the reader's request, with up to 2
-///   Pending results in between; notify never fires; unwind 14
-/// @says the query the server acts on is a function of the bytes only: a
-///   Serial Query with length 12 yields (session, serial) from the bytes and
+///   connection version state (not negotiated / any u8); the bytes arrive
+///   unfragmented, notify never fires; unwind 3
+/// @says the query the server acts on is a function of the bytes: a Serial
+///   Query with length 12 yields (session, serial) from the bytes and
 ///   consumes 12 bytes; any other length, a version other than the negotiated
 ///   one, or a first version above 2 yields an Error PDU (code 3 / 8 / 4,
 ///   answering version, the 8 header bytes encapsulated) after exactly 8
 ///   bytes; the negotiated version is set by the first acceptable header
 ///   and never changed afterwards
-/// @out more than one query per harness; streams longer than 12 bytes
+/// @out fragmentation and notify interleavings (the point of the property):
+///   one unfragmented call already needs 18 GB / 4 min, see DESIGN section 3 C08
 #[kani::proof]
-#[kani::unwind(14)]
-fn recv_serial_query_any_fragmentation() { recv_body(Some(1)); }
+#[kani::unwind(3)]
+fn recv_serial_query_unfragmented() { recv_body_x(Some(1), false, 0, 1); }
 
-/// @tier exp2
+/// @tier thorough
 /// @fn rpki::rtr::server::Connection::recv rpki::rtr::server::Connection::check_version
 ///   rpki::rtr::server::Connection::check_length
-/// @bounds as recv_serial_query_any_fragmentation with PDU type Reset Query
+/// @bounds as recv_serial_query_unfragmented with PDU type Reset Query
 /// @says a Reset Query with length 8 is recognised after exactly 8 bytes,
 ///   any other length / version violation is answered by the Error PDU
+/// @out fragmentation and notify interleavings
 #[kani::proof]
-#[kani::unwind(14)]
-fn recv_reset_query_any_fragmentation() { recv_body(Some(2)); }
+#[kani::unwind(3)]
+fn recv_reset_query_unfragmented() { recv_body_x(Some(2), false, 0, 1); }
 
-/// @tier exp2
+/// @tier thorough
 /// @fn rpki::rtr::server::Connection::recv rpki::rtr::server::Connection::check_version
-/// @bounds as recv_serial_query_any_fragmentation with every PDU type other
-///   than 1 and 2 (type 10 in its own case)
+/// @bounds as recv_serial_query_unfragmented with every PDU type other than
+///   1 and 2 (type 10 in its own case)
 /// @says any PDU type that is not a query is answered by an Error PDU with
 ///   code 3 encapsulating the header (after the version check), an Error
 ///   PDU from the client ends the connection with an error; exactly 8 bytes
 ///   are consumed
+/// @out fragmentation and notify interleavings
 #[kani::proof]
-#[kani::unwind(14)]
-fn recv_other_pdu_any_fragmentation() {
-    if kani::any() { recv_body(Some(10)) } else { recv_body(None) }
+#[kani::unwind(3)]
+fn recv_other_pdu_unfragmented() {
+    if kani::any() { recv_body_x(Some(10), false, 0, 1) }
+    else { recv_body_x(None, false, 0, 1) }
 }
 
-/// @tier long
-/// @says probe
+/// @tier quick
+/// @fn rpki::rtr::server::Connection::check_version rpki::rtr::pdu::Error::new
+///   rpki::rtr::pdu::Header::read
+/// @bounds every 8-byte header, every version state of the connection (not
+///   negotiated yet, or any u8); one step of the connection state machine
+///   from an arbitrary state; unwind 3
+/// @says version negotiation is a function of (state, header bytes): the
+///   first header fixes the version if it is at most 2 and is otherwise
+///   answered by Error code 4 with version 2; afterwards any other version
+///   is answered by Error code 8 with the negotiated version; the Error PDU
+///   encapsulates exactly the 8 offending bytes and its length fields are
+///   consistent; a refused header never changes the state
+/// @out that recv calls this step for every header is by reading (and is
+///   decided in the thorough tier for unfragmented arrival)
 #[kani::proof]
 #[kani::unwind(3)]
-fn x_recv_serial_plain() { recv_body_x(Some(1), false, 0, 1); }
-
-/// @tier long
-/// @says probe
-#[kani::proof]
-#[kani::unwind(3)]
-fn x_recv_reset_plain() { recv_body_x(Some(2), false, 0, 1); }
-
-/// @tier exp
-/// @says probe
-#[kani::proof]
-#[kani::unwind(4)]
-fn x_recv_reset_pending1() { recv_body_x(Some(2), false, 1, 2); }
-
-/// @tier exp
-/// @says probe
-#[kani::proof]
-#[kani::unwind(3)]
-fn x_check_version() {
+fn version_check_one_step() {
     let w: [u8; 8] = kani::any();
     let cur = any_version_state();
     let sock = Sock::<12, 1>::new([0; 12], 12, false, 0);
@@ -387,9 +384,16 @@ fn x_check_version() {
     let mut rd = &w[..];
     let h = block_on(pdu::Header::read(&mut rd), 1).unwrap().unwrap();
     let r = conn.check_version(h);
+    kani::cover!(cur.is_none() && w[0] == 3);
+    kani::cover!(cur == Some(1) && w[0] == 2);
+    kani::cover!(cur.is_none() && w[0] == 2);
     match ref_version(cur, w[0]) {
         Err((av, code)) => {
-            match r { Err(ref e) => check_error_pdu(e, av, code, &w[..8]), _ => panic!() }
+            match r {
+                Err(ref e) => check_error_pdu(e, av, code, &w[..8]),
+                _ => panic!("version violation accepted"),
+            }
+            assert!(conn.version() == cur);
         }
         Ok(v) => { assert!(r.is_ok() && conn.version() == Some(v)); }
     }
@@ -397,178 +401,318 @@ fn x_check_version() {
     std::mem::forget(conn);
 }
 
-/// @tier exp
-/// @says probe
+/// @tier quick
+/// @fn rpki::rtr::server::Connection::check_length rpki::rtr::pdu::Error::new
+/// @bounds every 8-byte header, every expected length (u32); unwind 3
+/// @says a query whose length field differs from the size of its PDU type
+///   is answered by Error code 3 under the header's own version with the
+///   header encapsulated; an exact length is accepted
 #[kani::proof]
 #[kani::unwind(3)]
-fn x_recv_min() {
-    let mut w: [u8; 12] = kani::any();
-    w[1] = 2;
-    let sock = Sock::<12, 1>::new(w, 12, false, 0);
-    let mut conn = Conn::new(sock, dummy_src());
-    let res = block_on(conn.recv(), 1);
-    let used = conn.sock().pos;
-    assert!(used == 8);
-    std::mem::forget(res);
-    std::mem::forget(conn);
-}
-
-/// @tier long
-/// @says probe
-#[kani::proof]
-#[kani::unwind(3)]
-fn x_recv_min_concrete() {
-    let mut w: [u8; 12] = kani::any();
-    w[0] = 1;
-    w[1] = 2;
-    w[4] = 0; w[5] = 0; w[6] = 0; w[7] = 8;
-    let sock = Sock::<12, 1>::new(w, 12, false, 0);
-    let mut conn = Conn::new(sock, dummy_src());
-    let res = block_on(conn.recv(), 1);
-    let used = conn.sock().pos;
-    assert!(used == 8);
-    assert!(matches!(res, Some(Ok(Some(VQuery::Reset)))));
-    std::mem::forget(res);
-    std::mem::forget(conn);
-}
-
-async fn my_recv<S: AsyncRead + Unpin>(sock: &mut S) -> Result<Option<VQuery>, io::Error> {
-    let header = pdu::Header::read(sock).await?;
-    match header.pdu() {
-        2 => {
-            if header.length() == 8 { Ok(Some(VQuery::Reset)) }
-            else { Ok(Some(VQuery::Error(pdu::Error::new(header.version(), 3, header, "invalid length")))) }
+fn length_check_one_step() {
+    let w: [u8; 8] = kani::any();
+    let expected: u32 = kani::any();
+    let mut rd = &w[..];
+    let h = block_on(pdu::Header::read(&mut rd), 1).unwrap().unwrap();
+    let r = Conn::<Sock<12, 1>, Src>::check_length(h, expected);
+    kani::cover!(be32(&w, 4) == 12 && expected == 12);
+    kani::cover!(be32(&w, 4) == 13 && expected == 12);
+    if be32(&w, 4) == expected {
+        assert!(r.is_ok());
+    } else {
+        match r {
+            Err(ref e) => check_error_pdu(e, w[0], 3, &w[..8]),
+            _ => panic!("wrong length accepted"),
         }
-        1 => {
-            if header.length() == 12 {
-                let payload = pdu::SerialQueryPayload::read(sock).await?;
-                Ok(Some(VQuery::Serial(State::from_parts(header.session(), payload.serial()))))
+    }
+    std::mem::forget(r);
+}
+
+//------------ notification while a header is half-read -----------------------
+
+/// Stream of `N` bytes that arrives in two pieces: the first `cut` bytes,
+/// then one `Pending`, then the rest, then end of stream.
+pub struct TwoPiece<const N: usize> {
+    pub input: [u8; N],
+    pub pos: usize,
+    pub cut: usize,
+    pub stalled: bool,
+    pub eof_reads: u32,
+}
+
+impl<const N: usize> AsyncRead for TwoPiece<N> {
+    fn poll_read(
+        mut self: Pin<&mut Self>, _cx: &mut Context<'_>,
+        buf: &mut ReadBuf<'_>,
+    ) -> Poll<io::Result<()>> {
+        if self.pos == self.cut && !self.stalled {
+            self.stalled = true;
+            return Poll::Pending;
+        }
+        let end = if self.pos < self.cut { self.cut } else { N };
+        let left = end - self.pos;
+        let room = buf.remaining();
+        if left == 0 || room == 0 {
+            if left == 0 && room > 0 {
+                self.eof_reads += 1;
+                if self.eof_reads > 3 {
+                    panic!("reader spins on a closed stream");
+                }
             }
-            else { Ok(Some(VQuery::Error(pdu::Error::new(header.version(), 3, header, "invalid length")))) }
+            return Poll::Ready(Ok(()));
         }
-        _ => Ok(Some(VQuery::Error(pdu::Error::new(header.version(), 3, header, "expected")))),
+        let n = if left < room { left } else { room };
+        let pos = self.pos;
+        buf.put_slice(&self.input[pos..pos + n]);
+        self.pos += n;
+        Poll::Ready(Ok(()))
     }
 }
 
-async fn my_recv_sel<S: AsyncRead + Unpin>(sock: &mut S) -> Result<Option<VQuery>, io::Error> {
-    use futures_util::future::{self, Either};
-    use futures_util::pin_mut;
-    let header = {
-        let notify = std::future::pending::<()>();
-        let header = pdu::Header::read(sock);
-        pin_mut!(notify);
-        pin_mut!(header);
-        match future::select(notify, header).await {
-            Either::Left(_) => return Ok(Some(VQuery::Notify)),
-            Either::Right((Ok(header), _)) => header,
-            Either::Right((Err(err), _)) => return Err(err),
-        }
-    };
-    match header.pdu() {
-        2 => {
-            if header.length() == 8 { Ok(Some(VQuery::Reset)) }
-            else { Ok(Some(VQuery::Error(pdu::Error::new(header.version(), 3, header, "invalid length")))) }
-        }
-        _ => Ok(Some(VQuery::Error(pdu::Error::new(header.version(), 3, header, "expected")))),
+fn notify_mid_header<const CUT: usize>() {
+    let mut w: [u8; 8] = kani::any();
+    w[1] = 2;
+    let fire: bool = kani::any();
+    unsafe {
+        verif::NOTIFY_POLLS = 0;
+        verif::NOTIFY_SCHEDULE = if fire { 0b10 } else { 0 };
     }
-}
-
-/// @tier exp
-/// @says probe
-#[kani::proof]
-#[kani::unwind(3)]
-fn x_myrecv() {
-    let mut w: [u8; 12] = kani::any();
-    w[1] = 2;
-    let mut sock = Sock::<12, 1>::new(w, 12, false, 0);
-    let res = block_on(my_recv(&mut sock), 1);
-    assert!(sock.pos == 8);
-    std::mem::forget(res);
-}
-
-/// @tier exp
-/// @says probe
-#[kani::proof]
-#[kani::unwind(3)]
-fn x_myrecv_sel() {
-    let mut w: [u8; 12] = kani::any();
-    w[1] = 2;
-    let mut sock = Sock::<12, 1>::new(w, 12, false, 0);
-    let res = block_on(my_recv_sel(&mut sock), 1);
-    assert!(sock.pos == 8);
-    std::mem::forget(res);
-}
-
-/// Model of `pdu::Error::new` used as a stub in the connection harnesses:
-/// the same octets (RFC 8210 section 5.10 layout: header with the error code
-/// in the session field, length of the encapsulated PDU, the PDU, length of
-/// the text, the text), built with one allocation and plain copies.  That
-/// the real `Error::new` produces exactly this layout is decided by C07
-/// (`error_pdu_layout`).
-pub fn error_new_model<P: AsRef<[u8]>, T: AsRef<[u8]>>(
-    version: u8, error_code: u16, pdu: P, text: T,
-) -> pdu::Error {
-    let p = pdu.as_ref();
-    let t = text.as_ref();
-    let size = 16 + p.len() + t.len();
-    let mut v = vec![0u8; size];
-    v[0] = version;
-    v[1] = 10;
-    v[2] = (error_code >> 8) as u8;
-    v[3] = error_code as u8;
-    v[4..8].copy_from_slice(&(size as u32).to_be_bytes());
-    v[8..12].copy_from_slice(&(p.len() as u32).to_be_bytes());
-    v[12..12 + p.len()].copy_from_slice(p);
-    v[12 + p.len()..16 + p.len()]
-        .copy_from_slice(&(t.len() as u32).to_be_bytes());
-    v[16 + p.len()..].copy_from_slice(t);
-    pdu::Error::verif_from_octets(v)
-}
-
-/// @tier exp
-/// @says probe
-#[kani::proof]
-#[kani::unwind(3)]
-#[kani::stub(rpki::rtr::pdu::Error::new, error_new_model)]
-fn x_recv_min_stub() {
-    let mut w: [u8; 12] = kani::any();
-    w[1] = 2;
-    let sock = Sock::<12, 1>::new(w, 12, false, 0);
-    let mut conn = Conn::new(sock, dummy_src());
-    let res = block_on(conn.recv(), 1);
-    let used = conn.sock().pos;
-    assert!(used == 8);
-    std::mem::forget(res);
-    std::mem::forget(conn);
-}
-
-/// @tier exp
-/// @says probe
-#[kani::proof]
-#[kani::unwind(3)]
-fn x_recv_min_nosrc() {
-    let mut w: [u8; 12] = kani::any();
-    w[1] = 2;
-    let sock = Sock::<12, 1>::new(w, 12, false, 0);
+    let sock = TwoPiece::<8> { input: w, pos: 0, cut: CUT, stalled: false,
+                               eof_reads: 0 };
     let mut conn = Conn::new(sock, ());
-    let res = block_on(conn.recv(), 1);
-    let used = conn.sock().pos;
-    assert!(used == 8);
+    let mut res = match block_on(conn.recv(), 2) {
+        Some(r) => r, None => panic!("recv stalls"),
+    };
+    let mut notified = false;
+    if let Ok(Some(VQuery::Notify)) = res {
+        notified = true;
+        res = match block_on(conn.recv(), 2) {
+            Some(r) => r, None => panic!("recv stalls"),
+        };
+    }
+    assert!(notified == fire);
+    kani::cover!(fire);
+    kani::cover!(!fire);
+    // the query is a function of the eight bytes only
+    let len = be32(&w, 4);
+    if w[0] <= 2 && len == 8 {
+        assert!(matches!(res, Ok(Some(VQuery::Reset))));
+        assert!(conn.sock().pos == 8);
+    }
     std::mem::forget(res);
     std::mem::forget(conn);
 }
 
-/// @tier exp
-/// @says probe
+/// @tier off
+/// @fn rpki::rtr::server::Connection::recv
+/// @bounds 8 header bytes of a Reset Query arriving as 3 + 5 with one Pending
+///   in between; the notify schedule fires on the second poll or never
+/// @says (NOT DECIDED: out of 45 GB after 8 min) a notification that fires
+///   while a header is half-read must not lose the bytes already read; kept
+///   for the record, see DESIGN section 3 C08
 #[kani::proof]
 #[kani::unwind(3)]
-fn x_recv_min_slice() {
-    let mut w: [u8; 12] = kani::any();
-    w[1] = 2;
-    let w: &'static [u8] = Vec::leak(w.to_vec());
-    let mut conn = Conn::new(w, ());
-    let res = block_on(conn.recv(), 1);
-    assert!(conn.sock().len() == 4);
+fn notify_mid_header_cut3() { notify_mid_header::<3>() }
+
+//------------ responses -------------------------------------------------------
+
+fn any_src(max_n: usize) -> Src {
+    let (o1, ..) = any_v4_origin();
+    let (o2, ..) = any_v4_origin();
+    let n: usize = kani::any();
+    kani::assume(n <= max_n);
+    let a1 = if kani::any() { Action::Announce } else { Action::Withdraw };
+    let a2 = if kani::any() { Action::Announce } else { Action::Withdraw };
+    Src { ready: kani::any(),
+          state: State::from_parts(kani::any(), Serial(kani::any())),
+          has_diff: kani::any(), n, items: [o1, o2], actions: [a1, a2],
+          timing: Timing { refresh: kani::any(), retry: kani::any(),
+                           expire: kani::any() } }
+}
+
+/// The version a connection can be on: not negotiated yet or 0..=2.
+fn any_negotiated() -> Option<u8> {
+    if kani::any() {
+        let v: u8 = kani::any();
+        kani::assume(v <= 2);
+        Some(v)
+    } else { None }
+}
+
+fn hdr_is(out: &[u8], off: usize, v: u8, pdu: u8, session: u16, len: u32)
+    -> bool {
+    out[off] == v && out[off + 1] == pdu && be16(out, off + 2) == session
+        && be32(out, off + 4) == len
+}
+
+fn v4_pdu_is(out: &[u8], off: usize, v: u8, flags: u8, o: &RouteOrigin)
+    -> bool {
+    let p = o.prefix.prefix();
+    let addr = match p.addr() {
+        std::net::IpAddr::V4(a) => u32::from(a),
+        _ => return false,
+    };
+    hdr_is(out, off, v, 4, 0, 20)
+        && out[off + 8] == flags
+        && out[off + 9] == p.len()
+        && out[off + 10] == o.prefix.resolved_max_len()
+        && out[off + 11] == 0
+        && be32(out, off + 12) == addr
+        && be32(out, off + 16) == o.asn.into_u32()
+}
+
+/// End of Data at `off`; returns the offset behind it.
+fn eod_is(out: &[u8], off: usize, v: u8, st: State, t: Timing) -> usize {
+    if v == 0 {
+        assert!(hdr_is(out, off, 0, 7, st.session(), 12));
+        assert!(be32(out, off + 8) == st.serial().0);
+        off + 12
+    } else {
+        assert!(hdr_is(out, off, v, 7, st.session(), 24));
+        assert!(be32(out, off + 8) == st.serial().0);
+        assert!(be32(out, off + 12) == t.refresh);
+        assert!(be32(out, off + 16) == t.retry);
+        assert!(be32(out, off + 20) == t.expire);
+        off + 24
+    }
+}
+
+fn not_ready_is(out: &[u8], out_len: usize, v: u8) {
+    // Error PDU, code 2 "No Data Available", no encapsulated PDU
+    assert!(out_len >= 16);
+    assert!(out[0] == v && out[1] == 10 && be16(out, 2) == 2);
+    assert!(be32(out, 4) as usize == out_len);
+    assert!(be32(out, 8) == 0);
+    assert!(be32(out, 12) as usize == out_len - 16);
+}
+
+fn respond_reset_body(max_n: usize) {
+    let src = any_src(max_n);
+    let cur = any_negotiated();
+    let sock = Sock::<1, 96>::new([0], 0, false, 0);
+    let mut conn = Conn::new(sock, src);
+    conn.set_version(cur);
+    let res = block_on(conn.reset(), 1);
+    assert!(matches!(res, Some(Ok(()))));
+    let v = cur.unwrap_or(0);
+    let out = &conn.sock().out;
+    let out_len = conn.sock().out_len;
+    kani::cover!(src.ready && src.n == max_n && v == 0);
+    kani::cover!(src.ready && v == 2);
+    kani::cover!(!src.ready);
+    if !src.ready {
+        not_ready_is(out, out_len, v);
+    } else {
+        assert!(hdr_is(out, 0, v, 3, src.state.session(), 8));
+        let mut off = 8;
+        if src.n >= 1 { assert!(v4_pdu_is(out, off, v, 1, &src.items[0])); off += 20; }
+        if src.n >= 2 { assert!(v4_pdu_is(out, off, v, 1, &src.items[1])); off += 20; }
+        let end = eod_is(out, off, v, src.state, src.timing);
+        assert!(end == out_len);
+    }
+    std::mem::forget(res);
+    std::mem::forget(conn);
+}
+
+/// @tier thorough
+/// @fn rpki::rtr::server::Connection::reset rpki::rtr::pdu::CacheResponse::write
+///   rpki::rtr::pdu::EndOfData::new rpki::rtr::pdu::Error::new
+/// @bounds empty source, arbitrary readiness / session / serial / timing,
+///   connection version not negotiated or 0..=2; in-memory sink; unwind 3
+/// @says a Reset Query gets exactly one complete response: Cache Response,
+///   End of Data in the form of the connection's version (12 or 24 bytes,
+///   timing from the source) and nothing else; a source that is not ready
+///   gets Error code 2
+#[kani::proof]
+#[kani::unwind(3)]
+fn respond_reset_0() { respond_reset_body(0) }
+
+/// @tier thorough
+/// @fn rpki::rtr::server::Connection::reset rpki::rtr::pdu::Payload::new_if_supported
+/// @bounds as respond_reset_0 with 0..=2 arbitrary IPv4 origins; unwind 4
+/// @says every origin of the source appears exactly once, as an announcement,
+///   in source order between Cache Response and End of Data
+#[kani::proof]
+#[kani::unwind(4)]
+fn respond_reset_2() { respond_reset_body(2) }
+
+fn respond_serial_body(max_n: usize) {
+    let src = any_src(max_n);
+    let cur = any_negotiated();
+    let client = State::from_parts(kani::any(), Serial(kani::any()));
+    let sock = Sock::<1, 96>::new([0], 0, false, 0);
+    let mut conn = Conn::new(sock, src);
+    conn.set_version(cur);
+    let res = block_on(conn.serial(client), 1);
+    assert!(matches!(res, Some(Ok(()))));
+    let v = cur.unwrap_or(0);
+    let out = &conn.sock().out;
+    let out_len = conn.sock().out_len;
+    kani::cover!(src.ready && src.has_diff && src.n == max_n);
+    kani::cover!(src.ready && !src.has_diff);
+    kani::cover!(!src.ready);
+    if !src.ready {
+        not_ready_is(out, out_len, v);
+    } else if !src.has_diff {
+        assert!(out_len == 8 && hdr_is(out, 0, v, 8, 0, 8));
+    } else {
+        assert!(hdr_is(out, 0, v, 3, src.state.session(), 8));
+        let mut off = 8;
+        if src.n >= 1 {
+            let f = if matches!(src.actions[0], Action::Announce) { 1 } else { 0 };
+            assert!(v4_pdu_is(out, off, v, f, &src.items[0])); off += 20;
+        }
+        if src.n >= 2 {
+            let f = if matches!(src.actions[1], Action::Announce) { 1 } else { 0 };
+            assert!(v4_pdu_is(out, off, v, f, &src.items[1])); off += 20;
+        }
+        let end = eod_is(out, off, v, src.state, src.timing);
+        assert!(end == out_len);
+    }
+    std::mem::forget(res);
+    std::mem::forget(conn);
+}
+
+/// @tier thorough
+/// @fn rpki::rtr::server::Connection::serial rpki::rtr::pdu::CacheReset::write
+/// @bounds as respond_reset_0 plus an arbitrary client state and an arbitrary
+///   "diff available" answer of the source
+/// @says a Serial Query gets exactly one response: Cache Reset (8 bytes) when
+///   the source has no diff, otherwise Cache Response .. End of Data
+#[kani::proof]
+#[kani::unwind(3)]
+fn respond_serial_0() { respond_serial_body(0) }
+
+/// @tier thorough
+/// @fn rpki::rtr::server::Connection::serial rpki::rtr::pdu::Payload::new_if_supported
+/// @bounds as respond_serial_0 with 0..=2 arbitrary IPv4 origins and actions
+/// @says every diff item appears once with its own action flag, in order
+#[kani::proof]
+#[kani::unwind(4)]
+fn respond_serial_2() { respond_serial_body(2) }
+
+/// @tier thorough
+/// @fn rpki::rtr::server::Connection::notify rpki::rtr::pdu::SerialNotify::write
+/// @bounds arbitrary source state, connection version not negotiated or 0..=2
+/// @says an update notification is written as one 12-byte Serial Notify
+///   carrying the source's session and serial under the connection's version
+/// @out when notifications are written relative to responses (interleaving)
+#[kani::proof]
+#[kani::unwind(3)]
+fn respond_notify() {
+    let src = any_src(0);
+    let cur = any_negotiated();
+    let sock = Sock::<1, 16>::new([0], 0, false, 0);
+    let mut conn = Conn::new(sock, src);
+    conn.set_version(cur);
+    let res = block_on(conn.notify(), 1);
+    assert!(matches!(res, Some(Ok(()))));
+    let v = cur.unwrap_or(0);
+    let out = &conn.sock().out;
+    assert!(conn.sock().out_len == 12);
+    assert!(hdr_is(out, 0, v, 0, src.state.session(), 12));
+    assert!(be32(out, 8) == src.state.serial().0);
+    kani::cover!(v == 1);
     std::mem::forget(res);
     std::mem::forget(conn);
 }
